@@ -240,6 +240,10 @@ func emailFromIDToken(idToken string) (string, error) {
 	// id_token is a base64 encode ID token payload
 	// https://developers.google.com/accounts/docs/OAuth2Login#obtainuserinfo
 	jwt := strings.Split(idToken, ".")
+	if len(jwt) < 2 {
+		// e.g. a token response without an id_token: there is no payload segment to read
+		return "", errors.New("malformed id_token: no payload segment")
+	}
 	b, err := jwtDecodeSegment(jwt[1])
 	if err != nil {
 		return "", err
